@@ -924,6 +924,10 @@ class Exec:
                 if outs is None or len(outs) != 1 or isinstance(outs[0][1], Raise) or outs[0][0] is not st:
                     raise ToolLimit('`in` on %s (its __contains__ forks, raises or is missing)' % r.cls)
                 c = self.truth(outs[0][1], st)
+            elif isinstance(r, VStr) and isinstance(l, VStr) and (r.z is not None or isinstance(r.s, str)) and (l.z is not None or isinstance(l.s, str)):
+                c = z3.Contains(self.strseq(r), self.strseq(l))          # substring test
+            elif isinstance(r, (VBytes, VBuf)) and isinstance(l, (VBytes, VBuf)):
+                c = z3.Contains(self.seq(r, st), self.seq(l, st))
             else:
                 raise ToolLimit('in on %s' % type(r).__name__)
             return z3.Not(c) if isinstance(op, ast.NotIn) else c
@@ -1533,6 +1537,8 @@ class Exec:
             hk = self.hooks.get(('ext:' + f.name, '__call__'))
             if hk is not None:
                 return hk(self, st, f, args)
+            if f.name == 'weakref.ref' and len(f.args) == 1 and not args:
+                return [(st, f.args[0])]          # the referent (assumed alive: it is reachable from the scenario's roots)
             return [(st, VExt(f.name + '()', list(f.args) + list(args), kws))]
         raise ToolLimit('call of %s' % type(f).__name__)
 
@@ -1995,6 +2001,30 @@ class Exec:
                 if name == 'all':
                     return [(st, VBool(z3.And(*its) if its else z3.BoolVal(True)))]
                 return [(st, VBool(z3.Or(*its) if its else z3.BoolVal(False)))]
+            if name == 'weakref.ref':
+                if isinstance(A[0], (VObj, VFunc, VClass, VExt)):
+                    return [(st, VExt('weakref.ref', (A[0],)))]
+                return [(st, Raise('TypeError', getattr(n, 'lineno', None)))]      # None, ints, str, tuples cannot be weakly referenced
+            if name in ('filter', 'map'):
+                # lazily evaluated in Python; here: applied at once (the callables used are side-effect free predicates / projections)
+                f, its = A[0], self.iter_items(A[1], st)
+                outs = [(st, [])]
+                for item in its:
+                    nxt = []
+                    for s1, acc in outs:
+                        if isinstance(acc, Raise):
+                            nxt.append((s1, acc))
+                            continue
+                        for s2, rv in (self.call(f, [item], {}, s1, ctx, n, env) if not isinstance(f, VNone) else [(s1, item)]):
+                            if isinstance(rv, Raise):
+                                nxt.append((s2, rv))
+                            elif name == 'map':
+                                nxt.append((s2, acc + [rv]))
+                            else:
+                                for s3, t in self.fork(s2, self.truth(rv, s2)):
+                                    nxt.append((s3, acc + [item] if t else acc))
+                    outs = nxt
+                return [(s1, acc if isinstance(acc, Raise) else VTuple(acc)) for s1, acc in outs]
             if name == 'functools.wraps':
                 return [(st, VBuiltin('identity'))]        # decorator that returns the function it is applied to
             if name == 'identity':
@@ -2261,6 +2291,31 @@ class Exec:
         if isinstance(b, VList) and name == 'append':
             st.heap[b.cell] = st.heap[b.cell] + (A[0],)
             return [(st, VNone())]
+        if isinstance(b, VList) and name == 'remove':
+            # list.remove(x) / deque.remove(x): drops the first element equal to x, ValueError if none
+            x = A[0]
+            its = list(st.heap[b.cell])
+            if isinstance(x, VObj) and self.repo.lookup(x.cls, '__eq__') is not None:
+                raise ToolLimit('list.remove of an object whose class defines __eq__')
+            res, rest = [], st
+            for i, it in enumerate(its):
+                e = z3.simplify(self.eq(it, x, rest))
+                if z3.is_false(e):
+                    continue
+                hit = rest.clone() if not z3.is_true(e) else rest
+                if not z3.is_true(e):
+                    hit.pc.append(e)
+                    if not self.feasible(hit, z3.BoolVal(True)):
+                        continue
+                hit.heap[b.cell] = tuple(its[:i] + its[i + 1:])
+                res.append((hit, VNone()))
+                if z3.is_true(e):
+                    return res
+                rest.pc.append(z3.Not(e))
+                if not self.feasible(rest, z3.BoolVal(True)):
+                    return res
+            res.append((rest, Raise('ValueError', getattr(n, 'lineno', None))))
+            return res
         if isinstance(b, VList) and name == 'appendleft':
             st.heap[b.cell] = (A[0],) + st.heap[b.cell]
             return [(st, VNone())]
@@ -2562,6 +2617,13 @@ class Exec:
             e = n.exc.func if isinstance(n.exc, ast.Call) else n.exc
             name = ast.unparse(e)
         return [(st, Raise(name, n.lineno))]
+
+    def ev_Lambda(self, n, env, st, ctx):
+        """lambda args: expr  ==  def <lambda>(args): return expr  (closure over the current environment)"""
+        fd = ast.FunctionDef(name='<lambda>', args=n.args, body=[ast.copy_location(ast.Return(value=n.body), n)], decorator_list=[],
+                             returns=None, type_comment=None)
+        fd = ast.fix_missing_locations(ast.copy_location(fd, n))
+        return [(st, VFunc(fd, env, cls=ctx.get('cls'), mod=ctx['mod']))]
 
     def st_FunctionDef(self, n, env, st, ctx):
         st.envs[env.eid][n.name] = VFunc(n, env, cls=ctx.get('cls'), mod=ctx['mod'])
